@@ -28,13 +28,15 @@ Fixpoint evict (fuel : nat) (cap : Z) (h : handles) : handles :=
   | S n => if zlen h >? cap then evict n cap (tl h) else h
   end.
 
-Definition get_open_file (d : disk) (h : handles) (id : Z) : res handles :=
-  if zmem id h then Ok h
+(* returns the new table together with success/failure: eviction happens before
+   open() is attempted, so it also takes effect when open() fails *)
+Definition get_open_file (d : disk) (h : handles) (id : Z) : res unit * handles :=
+  if zmem id h then (Ok tt, h)
   else
     let h' := evict (length h) ex_max_open_files h in
     match disk_get d id with
-    | Some _ => Ok (h' ++ [id])
-    | None => Err (DRead 2)
+    | Some _ => (Ok tt, h' ++ [id])
+    | None => (Err (DRead 2), h')
     end.
 
 (* bytes [off, off+n) of a content *)
@@ -48,8 +50,8 @@ Fixpoint gp_read (d : disk) (h : handles) (rel : list file) (seek to_read : Z) (
   | [] => (Ok acc, h)
   | f :: r =>
       match get_open_file d h (fid f) with
-      | Err e => (Err e, h)
-      | Ok h1 =>
+      | (Err e, h1) => (Err e, h1)
+      | (Ok _, h1) =>
           match disk_get d (fid f) with
           | None => (Err (DRead 2), h1)
           | Some c =>
@@ -241,22 +243,22 @@ Fixpoint iter_files (d : disk) (fs_all : list file) (L : Z) (todo : list file) (
       else
         let actual := disk_get d (fid f) in
         let size_bad := match actual with Some c => negb (zlen c =? fsize f) | None => false end in
-        let opened := if size_bad then Err DFileSize else get_open_file d (it_h st) (fid f) in
+        let opened := if size_bad then (Err DFileSize, it_h st) else get_open_file d (it_h st) (fid f) in
         match opened, actual with
-        | Ok h', Some c =>
+        | (Ok _, h'), Some c =>
             let ps := pieces_from_handle L (it_trailing st) (skipn (Z.to_nat (it_skip st)) c) in
             let full := filter (fun p => zlen p =? L) ps in
             let trailing := last (filter (fun p => negb (zlen p =? L)) ps) [] in
             let st' := {| it_trailing := trailing; it_skip := 0; it_mp := it_mp st;
                           it_h := h'; it_lastfile := fid f |} in
             iter_files d fs_all L r st' (acc ++ map (fun p => ((Some p, fid f, []), h')) full)
-        | _, _ =>
+        | (_, h'), _ =>
             let reason := if size_bad then (XSize, fid f) else (XMissing, fid f) in
             do m <- missing_pieces d fs_all L (it_mp st) f reason;
             let '(items, skip, mp') := m in
             let st' := {| it_trailing := []; it_skip := skip; it_mp := mp';
-                          it_h := it_h st; it_lastfile := fid f |} in
-            iter_files d fs_all L r st' (acc ++ map (fun it => (it, it_h st)) items)
+                          it_h := h'; it_lastfile := fid f |} in
+            iter_files d fs_all L r st' (acc ++ map (fun it => (it, h')) items)
         end
   end.
 
